@@ -14,6 +14,8 @@ import (
 	"strconv"
 	"strings"
 	"sync"
+	"testing/iotest"
+	"time"
 
 	"github.com/gauss-project/aurorafs/pkg/boson"
 	"github.com/gauss-project/aurorafs/pkg/cac"
@@ -201,6 +203,7 @@ const (
 	modePipe // writes go through file.ChunkPipe and builder.FeedPipeline
 	modeEncSmall
 	modeSynth // synthetic encrypted file served chunk by chunk on demand (reader only)
+	modeFeed  // the written bytes are handed to builder.FeedPipeline through a reader of a given shape at `sum`
 )
 
 type Runner struct {
@@ -220,6 +223,8 @@ type Runner struct {
 	pos     int64 // the oracle's own cursor
 	syn     *synthStore
 	spy     *trieSpy // new small: observes the hash-trie writer (verif hook hashtrie.VerifPeek)
+	pspy    *pipeSpy // new pipe: observes what FeedPipeline reads out of the ChunkPipe
+	shape   string   // new feed: plain | dataerr | one | half | halfdataerr | chunk<k>
 }
 
 // total is the length of the content; slice its bytes [at, at+n).
@@ -317,6 +322,264 @@ func (s *synthStore) Get(ctx context.Context, mode storage.ModeGet, a boson.Addr
 	copy(data, xorStream(le64b(span), key, uint32(C/64)))
 	copy(data[8:], xorStream(payload, key, 0))
 	return boson.NewChunk(a, data), nil
+}
+
+// pipeSpy is the reader FeedPipeline is given in `new pipe` mode: the ChunkPipe itself, with every
+// Read recorded (bytes and piece lengths).  Only looked at after FeedPipeline has returned.
+type pipeSpy struct {
+	r    io.Reader
+	out  []byte
+	lens []int
+	dig  uint64 // chained over (length, fnv) of every piece, as Driver/FileCommon.lean St.notePiece
+}
+
+func (p *pipeSpy) Read(b []byte) (int, error) {
+	n, err := p.r.Read(b)
+	if n > 0 {
+		p.out = append(p.out, b[:n]...)
+		p.lens = append(p.lens, n)
+		var l [24]byte
+		binary.LittleEndian.PutUint64(l[0:], p.dig)
+		binary.LittleEndian.PutUint64(l[8:], uint64(n))
+		binary.LittleEndian.PutUint64(l[16:], Fnv(b[:n]))
+		p.dig = Fnv(l[:])
+	}
+	return n, err
+}
+
+// checkPipe: the direct ChunkPipe oracle (model-free) — the bytes that left the pipe are the bytes
+// written into it, in order; only the last piece is shorter than a chunk.
+func (rn *Runner) checkPipe(ctx *core.Ctx) {
+	got, want := rn.pspy.out, rn.written
+	if !bytes.Equal(got, want) {
+		at := 0
+		for at < len(got) && at < len(want) && got[at] == want[at] {
+			at++
+		}
+		if len(got) == len(want) {
+			ctx.Fail("chunkpipe-bytes-reordered", "the %d bytes leaving the chunk pipe differ from the bytes written (first difference at offset %d; piece lengths %v)", len(got), at, rn.pspy.lens)
+		} else {
+			ctx.Fail("chunkpipe-bytes-lost-or-added", "%d bytes left the chunk pipe, %d were written (first difference at offset %d; piece lengths %v)", len(got), len(want), at, rn.pspy.lens)
+		}
+	}
+	for i, l := range rn.pspy.lens {
+		if l > C || (l < C && i != len(rn.pspy.lens)-1) {
+			ctx.Fail("chunkpipe-short-piece-not-last", "piece %d of %d has %d bytes (piece lengths %v)", i, len(rn.pspy.lens), l, rn.pspy.lens)
+			break
+		}
+	}
+}
+
+// ---- `new feed <shape>`: builder.FeedPipeline over readers of different shapes
+
+// lastWithEOF returns at most k bytes per Read and reports io.EOF together with the last bytes.
+type lastWithEOF struct {
+	b []byte
+	k int
+}
+
+func (l *lastWithEOF) Read(p []byte) (int, error) {
+	n := len(l.b)
+	if n > l.k {
+		n = l.k
+	}
+	if n > len(p) {
+		n = len(p)
+	}
+	copy(p, l.b[:n])
+	l.b = l.b[n:]
+	if len(l.b) == 0 {
+		return n, io.EOF
+	}
+	return n, nil
+}
+
+func feedReader(shape string, content []byte) (io.Reader, bool) {
+	switch {
+	case shape == "plain":
+		return bytes.NewReader(content), true
+	case shape == "dataerr": // the final error arrives WITH the final data (1 KiB pieces)
+		return iotest.DataErrReader(bytes.NewReader(content)), true
+	case shape == "one":
+		return iotest.OneByteReader(bytes.NewReader(content)), true
+	case shape == "half":
+		return iotest.HalfReader(bytes.NewReader(content)), true
+	case shape == "halfdataerr":
+		return iotest.HalfReader(iotest.DataErrReader(bytes.NewReader(content))), true
+	case strings.HasPrefix(shape, "chunk"):
+		k, err := strconv.Atoi(shape[5:])
+		if err != nil || k <= 0 {
+			return nil, false
+		}
+		return &lastWithEOF{b: content, k: k}, true
+	}
+	return nil, false
+}
+
+// readSpy records every Read result (count, EOF flag) and the bytes delivered.
+type readSpy struct {
+	r    io.Reader
+	toks []string
+	out  []byte
+}
+
+func (s *readSpy) Read(p []byte) (int, error) {
+	n, err := s.r.Read(p)
+	if n > 0 {
+		s.out = append(s.out, p[:n]...)
+	}
+	switch {
+	case err == io.EOF:
+		s.toks = append(s.toks, strconv.Itoa(n)+"e")
+	case err == nil:
+		s.toks = append(s.toks, strconv.Itoa(n))
+	default:
+		s.toks = append(s.toks, strconv.Itoa(n)+"x")
+	}
+	return n, err
+}
+
+// writeSpy records what FeedPipeline hands to the pipeline.
+type writeSpy struct {
+	pipeline.Interface
+	got []byte
+}
+
+func (w *writeSpy) Write(b []byte) (int, error) {
+	w.got = append(w.got, b...)
+	return w.Interface.Write(b)
+}
+
+// sumFeed runs FeedPipeline over the written bytes; the read results are annotated for the model.
+func (rn *Runner) sumFeed(ctx *core.Ctx) ([]byte, error) {
+	rd, _ := feedReader(rn.shape, rn.written)
+	rs := &readSpy{r: rd}
+	ws := &writeSpy{Interface: rn.p}
+	a, err := builder.FeedPipeline(context.Background(), ws, rs)
+	ctx.Annotate(rs.toks...)
+	if !bytes.Equal(rs.out, rn.written) {
+		ctx.Fail("feed-reader-broken", "harness reader %s delivered %d bytes of %d", rn.shape, len(rs.out), len(rn.written))
+	}
+	if err == nil && !bytes.Equal(ws.got, rs.out) {
+		ctx.Fail("feedpipeline-bytes-dropped", "reader %s delivered %d bytes (last reads %v), FeedPipeline wrote %d bytes to the pipeline", rn.shape, len(rs.out), tailToks(rs.toks), len(ws.got))
+	}
+	if err != nil {
+		return nil, err
+	}
+	return a.Bytes(), nil
+}
+
+func tailToks(t []string) []string {
+	if len(t) > 4 {
+		return t[len(t)-4:]
+	}
+	return t
+}
+
+// ---- `parup`: concurrent uploads sharing the process-wide BMT pool
+
+type nopPutter struct{}
+
+func (nopPutter) Put(_ context.Context, _ storage.ModePut, chs ...boson.Chunk) ([]bool, error) {
+	return make([]bool, len(chs)), nil
+}
+
+func uploadNop(data []byte) ([]byte, error) {
+	p := builder.NewPipelineBuilder(context.Background(), nopPutter{}, storage.ModePutUpload, false)
+	if _, err := p.Write(data); err != nil {
+		return nil, err
+	}
+	return p.Sum()
+}
+
+// parup: one goroutine per source; the first uploads its content `reps` times, the others keep uploading
+// theirs until the first is done (at least once each).  Every reference must be the format's tree hash of
+// its content — whatever else is being uploaded at the same time.
+func (rn *Runner) parup(ctx *core.Ctx, reps int, srcs [][]byte) string {
+	want := make([][]byte, len(srcs))
+	memo := map[string][]byte{}
+	for i, d := range srcs {
+		if w, ok := memo[string(d)]; ok {
+			want[i] = w
+			continue
+		}
+		want[i] = SpecRoot(d, C, boson.Branches)
+		memo[string(d)] = want[i]
+	}
+	type result struct {
+		first  []byte
+		n, bad int
+		mixed  bool
+		err    error
+		badRef []byte
+	}
+	res := make([]result, len(srcs))
+	stop := make(chan struct{})
+	var wg sync.WaitGroup
+	one := func(i int) {
+		got, err := uploadNop(srcs[i])
+		r := &res[i]
+		r.n++
+		if err != nil {
+			r.err = err
+			return
+		}
+		if r.first == nil {
+			r.first = got
+		} else if !bytes.Equal(r.first, got) {
+			r.mixed = true
+		}
+		if !bytes.Equal(got, want[i]) {
+			r.bad++
+			r.badRef = got
+		}
+	}
+	for i := range srcs {
+		wg.Add(1)
+		go func(i int) {
+			defer wg.Done()
+			if i == 0 {
+				defer close(stop)
+				for k := 0; k < reps; k++ {
+					one(0)
+				}
+				return
+			}
+			for {
+				one(i)
+				select {
+				case <-stop:
+					return
+				default:
+				}
+			}
+		}(i)
+	}
+	done := make(chan struct{})
+	go func() { wg.Wait(); close(done) }()
+	select {
+	case <-done:
+	case <-time.After(40 * time.Second):
+		ctx.Fail("par-hang", "concurrent uploads did not finish within 40 s (%d uploaders)", len(srcs))
+		return "hang"
+	}
+	out := "ok"
+	for i, r := range res {
+		switch {
+		case r.err != nil:
+			ctx.Fail("par-upload-error", "uploader %d (%d bytes): %v", i, len(srcs[i]), r.err)
+			out += " err"
+			continue
+		case r.bad > 0:
+			ctx.Fail("par-ref-not-format-hash", "uploader %d (%d bytes): %d of %d concurrent uploads returned a wrong reference, e.g. %x, format specification %x", i, len(srcs[i]), r.bad, r.n, r.badRef, want[i])
+		}
+		if r.mixed {
+			out += " unstable"
+		} else {
+			out += " " + hex.EncodeToString(r.first)
+		}
+	}
+	return out
 }
 
 type pipeResult struct {
@@ -508,14 +771,17 @@ func (rn *Runner) reset(mode int) {
 		rn.p = builder.NewPipelineBuilder(ctx, rn.st, storage.ModePutUpload, false)
 	case modeEnc:
 		rn.p = builder.NewPipelineBuilder(ctx, rn.st, storage.ModePutUpload, true)
+	case modeFeed:
+		rn.p = builder.NewPipelineBuilder(ctx, rn.st, storage.ModePutUpload, false)
 	case modePipe:
 		p := builder.NewPipelineBuilder(ctx, rn.st, storage.ModePutUpload, false)
 		rn.pipe = file.NewChunkPipe()
 		rn.pipeRes = make(chan pipeResult, 1)
+		rn.pspy = &pipeSpy{r: rn.pipe}
 		go func(pp io.Reader, res chan pipeResult) {
 			a, err := builder.FeedPipeline(ctx, p, pp)
 			res <- pipeResult{a, err}
-		}(rn.pipe, rn.pipeRes)
+		}(rn.pspy, rn.pipeRes)
 	}
 }
 
@@ -523,6 +789,9 @@ func (rn *Runner) write1(b []byte) (int, error) {
 	rn.written = append(rn.written, b...)
 	if rn.mode == modePipe {
 		return rn.pipe.Write(b)
+	}
+	if rn.mode == modeFeed {
+		return len(b), nil // handed to FeedPipeline at `sum`
 	}
 	return rn.p.Write(b)
 }
@@ -634,6 +903,27 @@ func (rn *Runner) Step(ctx *core.Ctx, op []string) string {
 	case len(op) == 2 && op[0] == "new" && op[1] == "pipe":
 		rn.reset(modePipe)
 		return "ok"
+	case len(op) == 3 && op[0] == "new" && op[1] == "feed":
+		if _, ok := feedReader(op[2], nil); !ok {
+			return "bad-op"
+		}
+		rn.reset(modeFeed)
+		rn.shape = op[2]
+		return "ok"
+	case len(op) >= 3 && op[0] == "parup":
+		reps, ok := atoi(op[1])
+		if !ok || reps < 1 || reps > 50 || len(op) > 40 {
+			return "bad-op"
+		}
+		var srcs [][]byte
+		for _, t := range op[2:] {
+			d, ok := core.ParseSrc(t)
+			if !ok {
+				return "bad-op"
+			}
+			srcs = append(srcs, d)
+		}
+		return rn.parup(ctx, reps, srcs)
 	case len(op) == 4 && op[0] == "new" && op[1] == "small":
 		c, ok1 := atoi(op[2])
 		b, ok2 := atoi(op[3])
@@ -742,10 +1032,15 @@ func (rn *Runner) Step(ctx *core.Ctx, op []string) string {
 			} else {
 				<-rn.pipeRes
 			}
+		} else if rn.mode == modeFeed {
+			sum, err = rn.sumFeed(ctx)
 		} else {
 			sum, err = rn.p.Sum()
 		}
 		rn.summed = true
+		if rn.mode == modePipe {
+			rn.checkPipe(ctx)
+		}
 		if err != nil {
 			rn.failed = true
 			return "err"
@@ -772,6 +1067,9 @@ func (rn *Runner) Step(ctx *core.Ctx, op []string) string {
 		}
 		if rn.spy != nil {
 			return fmt.Sprintf("ok %s %d %016x", hex.EncodeToString(sum), rn.st.NPuts, rn.st.Dig) + rn.spy.flush()
+		}
+		if rn.pspy != nil {
+			return fmt.Sprintf("ok %s %d %016x pp=%d:%016x", hex.EncodeToString(sum), rn.st.NPuts, rn.st.Dig, len(rn.pspy.lens), rn.pspy.dig)
 		}
 		return fmt.Sprintf("ok %s %d %016x", hex.EncodeToString(sum), rn.st.NPuts, rn.st.Dig)
 	case len(op) == 1 && op[0] == "open":
